@@ -152,12 +152,15 @@ theorem exception_close_wellformed (code : Nat) (text : Bytes) (hc : code < 6553
   omega
 
 /-- After a client exception nothing else is ever appended to the outbound data and inbound
-    frames are ignored: restated from C20 for completeness of this file. -/
+    frames are ignored: the state part of C20's `exception_still_reported`, restated for
+    completeness of this file (it needs no hypothesis on the slot keys). -/
 theorem exception_is_final (c : Conn) (o : IoOp) (hl : c.legacy = false) (hd : c.dead = false)
     (hst : c.st = .clientException) (hs : c.sealed = true) :
     ((ioStep c o).2.err = none → (ioStep c o).1.st = .clientException ∧ (ioStep c o).1.sealed = true ∧
         ∃ k, (ioStep c o).1.out = c.out.drop k) :=
-  (C20.exception_still_reported c o hl hd hst hs).1
+  fun he =>
+    have h := (ioStep_sealed hl hd (by rw [hst]; exact fun e => nomatch e) hs o).1 he
+    ⟨h.1.trans hst, h.2⟩
 
 /-- D13: before the repair the text was not cut to 255 bytes (here 300 bytes ⇒ length octet 44). -/
 example : (connectionClose 530 (List.replicate 300 65)).getD 13 0 = 44 := by decide +kernel
